@@ -347,3 +347,67 @@ def ctor_args(v, order):
     for i, f in enumerate(v.fields):
         out[order[i]] = f.poly()
     return out
+
+
+def take_while_admits(R, F, it):
+    """number of items a `take_while(counting closure)` lets through when the stream is long enough, or (None, why).
+    The closure body is interpreted as a function of its captured state: exactly one captured field c may change, by +1
+    per call; the verdict must be one comparison `E - c >= 0` (or its negation) with E over the other captured fields.
+    Call k (k = 1, 2, ..) then passes iff k <= E - c0 + 1, so E - c0 + 1 items are admitted (c0: the captured start value)."""
+    cl = it.fields[1] if isinstance(it, Agg) and len(it.fields) > 1 else None
+    rec = F.bodies.get(getattr(cl, "name", None)) if isinstance(cl, Agg) else None
+    if rec is None:
+        return None, "no body for the predicate %r" % (cl,)
+    ex = R.executor(F)
+    ex.keep_dead_entry_locals = True
+    res = R.run_entry(ex, rec)
+    rets = res.returns()
+    if len(rets) != 1:
+        return None, "the predicate has %d return paths" % len(rets)
+    o = rets[0]
+    env = o.state.mem.get(("O", "*arg1"))
+    r = o.value.p if isinstance(o.value, BoolV) else None
+    if not isinstance(env, Agg) or r is None or len(env.fields) != len(cl.fields):
+        return None, "unexpected shape of the predicate's state %r / verdict %r" % (env, o.value)
+    pre = [Poly.atom(a) for a in sorted((a for a in set().union(*[x.poly().atoms() for x in env.fields if isinstance(x, IntV)]) | r.atoms()
+                                         if a[0] == "i" and str(a[1]).startswith("*arg1.up")), key=repr)]
+    byname = {}
+    for p_ in pre:
+        byname[list(p_.atoms())[0][1]] = p_
+    counter = None
+    for i, x in enumerate(env.fields):
+        nm = "*arg1.up%d" % i
+        if not isinstance(x, IntV):
+            continue
+        p0 = byname.get(nm)
+        if p0 is None:
+            continue
+        if x.poly() == p0:
+            continue
+        if x.poly() == p0 + ONE and counter is None:
+            counter = (i, p0)
+        else:
+            return None, "captured field %d changes from %r to %r" % (i, p0, x.poly())
+    if counter is None:
+        return None, "the predicate keeps no counter"
+    ci, c = counter
+    ca = list(c.atoms())[0]
+    e = None
+    ats = [a for a in r.atoms()]
+    if len(ats) == 1 and ats[0][0] == "ge":
+        p = Poly(dict(ats[0][1])) if not isinstance(ats[0][1], Poly) else ats[0][1]
+        coef = p.terms.get((ca,), 0)
+        if r == Poly.atom(ats[0]) and coef == -1:
+            e = p + c
+        elif r == ONE - Poly.atom(ats[0]) and coef == 1:
+            e = -p - ONE + c
+    if e is None or ca in e.atoms():
+        return None, "the verdict %r is not one comparison of the counter with a limit" % (r,)
+    sub = {}
+    for i, x in enumerate(cl.fields):
+        nm = "*arg1.up%d" % i
+        if nm in byname:
+            if not isinstance(x, IntV):
+                return None, "captured field %d is %r" % (i, x)
+            sub[list(byname[nm].atoms())[0]] = x.poly()
+    return (e - c + ONE).subst(sub), None
